@@ -25,7 +25,7 @@ HEADER = '''from __future__ import annotations
 import datetime
 import decimal as _decimal
 from dataclasses import dataclass, field
-from enum import Enum, IntEnum, IntFlag, StrEnum
+from enum import Enum, Flag, IntEnum, IntFlag, StrEnum
 from typing import Any, Optional
 from xml.etree.ElementTree import QName
 from xsdata.models.datatype import (XmlBase64Binary, XmlDate, XmlDateTime, XmlDuration, XmlHexBinary, XmlPeriod,
@@ -241,7 +241,8 @@ ANNOT = {"int": "int", "float": "float", "str": "str", "bool": "bool", "dec": "D
          "pydatetime": "datetime.datetime"}
 
 
-ENUM_BASES = ["IntEnum", "IntFlag", "StrEnum", "str, Enum", "float, Enum", "bytes, Enum"]
+ENUM_BASES = ["IntEnum", "IntFlag", "Flag", "StrEnum", "str, Enum", "float, Enum", "bytes, Enum"]
+FLAG_BASES = ("IntFlag", "Flag")
 
 
 def enum_member_value(base, i, name):
@@ -250,8 +251,8 @@ def enum_member_value(base, i, name):
     only with enum members (no field default or dict key may equal a member by value)."""
     if base == "IntEnum":
         return repr(7001 + i)
-    if base == "IntFlag":
-        return repr(1 << (12 + i))          # single named flags only (composite flags have no member name)
+    if base in FLAG_BASES:
+        return repr(1 << (12 + i))          # the named single flags; combinations are generated as values
     if base in ("StrEnum", "str, Enum"):
         return repr(f"se_{name.lower()}_{i}")
     if base == "float, Enum":
@@ -518,6 +519,15 @@ class InstGen:
         r = self.r
         mixed = [e for e in self.w.enums if e.get("base", "Enum") != "Enum"]
         e = r.choice(mixed) if mixed and r.random() < 0.6 else r.choice(self.w.enums)
+        return self.member_of(e)
+
+    def member_of(self, e):
+        r = self.r
+        if e.get("base") in FLAG_BASES and r.random() < 0.5:
+            # a flag value without a member name: the empty flag or a combination of two or more members
+            n = len(e["members"])
+            picked = r.sample(range(n), r.randint(2, n)) if n >= 2 and r.random() < 0.75 else []
+            return {"t": "flag", "c": [e["mod"], e["qual"]], "v": str(sum(1 << (12 + i) for i in picked))}
         return {"t": "enum", "c": [e["mod"], e["qual"]], "m": r.choice(e["members"])}
 
     def dict_value(self, depth):
@@ -575,7 +585,7 @@ class InstGen:
                 return g_scalar(r)                       # a value of another type in a typed slot
             return g_scalar(r, arg)
         if kind == "enum":
-            return {"t": "enum", "c": [arg["mod"], arg["qual"]], "m": r.choice(arg["members"])}
+            return self.member_of(arg)
         if kind == "class":
             if depth > 3:
                 return NONE
@@ -657,6 +667,8 @@ def cvalue(v):
         return f"(VPeriod {ccps(v['v'])})"
     if t == "enum":
         return f"(VEnum {ccref(v['c'])} {cstr(v['m'])})"
+    if t == "flag":
+        return f"(VFlag {ccref(v['c'])} {cnum(v['v'])})"
     if t == "list":
         return f"(VList {clist(v['v'], cvalue, 'value')})"
     if t == "tuple":
@@ -720,7 +732,7 @@ def cworld(world):
 
     def ccls(c):
         if c["kind"] == "enum":
-            k = f"(KEnum {clist(c['members'], cstr, 'str')})"
+            k = f"(KEnum {clist(c['members'], cstr, 'str')} {copt(c.get('flags'), lambda fl: clist(fl, cnum, 'Z'))})"
         else:
             k = f"(KData {cbool(c['frozen'])} {clist(c['fields'], cfd, 'fdesc')})"
         return f"{{| c_ref := {ccref(c['c'])}; c_kind := {k} |}}"
@@ -740,6 +752,11 @@ def witness_batch():
     src = HEADER + '''
 class Color(Enum):
     RED = "red"
+
+
+class Perm(IntFlag):
+    R = 4096
+    W = 8192
 
 
 @dataclass
@@ -784,6 +801,9 @@ class X:
         ("qname-quote", {"t": "obj", "c": O, "kw": [["any", Q('a"b')]]}),
         ("init-false", {"t": "obj", "c": O, "kw": [], "set": [["fx", S("changed")]]}),
         ("stdlib-date", {"t": "obj", "c": O, "kw": [["any", {"t": "std", "k": "date", "args": ["2020", "1", "2"]}]]}),
+        ("flag-combination", {"t": "obj", "c": O, "kw": [["any", {"t": "list", "v": [
+            {"t": "flag", "c": [m1, ["Perm"]], "v": "12288"}, {"t": "flag", "c": [m1, ["Perm"]], "v": "0"},
+            {"t": "enum", "c": [m1, ["Perm"]], "m": "W"}]}]]}),
         ("ok-nontrivial", {"t": "obj", "c": O, "kw": [
             ["a", I(1)], ["inner", {"t": "obj", "c": [m1, ["Outer", "Inner"]], "kw": [["v", F(float("nan"))]]}],
             ["e", {"t": "enum", "c": [m1, ["Color"]], "m": "RED"}],
@@ -987,7 +1007,7 @@ def run(ck: Check):
                       "repr_object and exec")
     def has_mixed(v, mixed):
         if isinstance(v, dict):
-            if v.get("t") == "enum" and (v["c"][0], tuple(v["c"][1])) in mixed:
+            if v.get("t") in ("enum", "flag") and (v["c"][0], tuple(v["c"][1])) in mixed:
                 return True
             return any(has_mixed(x, mixed) for x in v.values())
         if isinstance(v, list):
